@@ -146,8 +146,8 @@ def apply(root, m):
     lines = open(p).read().split("\n")
     at = m["line"] - 1
     if at >= len(lines) or lines[at] != m["old"]:
-        # the file moved a little since the plan was made (a repair commit): take the nearest identical line within 12 lines
-        cand = [i for i in range(max(0, at - 12), min(len(lines), at + 13)) if lines[i] == m["old"]]
+        # the file moved a little since the plan was made (a repair commit): take the nearest identical line within 40 lines
+        cand = [i for i in range(max(0, at - 40), min(len(lines), at + 41)) if lines[i] == m["old"]]
         if not cand:
             return False
         at = min(cand, key=lambda i: abs(i - (m["line"] - 1)))
